@@ -38,6 +38,27 @@ Theorem C12_become : forall (w : vworld) i k v, v_inv w -> v_get w i = Some v ->
 Proof. exact v_become_spec. Qed.
 Print Assumptions C12_become.
 
+(* the converting operations (construction / assignment from a type that is not an alternative, and from another
+   Variant type by copy or move) are, for any placement of the source's alternatives, operations of the same state
+   machine, so every mixed history keeps the invariant and destroys what it constructs *)
+Theorem C12_converting_histories : forall (ctor_target assign_target : Z -> Z) (n : nat) (alts : Z) (cops : list vcop),
+  v_inv (fold_left (vc_step ctor_target assign_target) cops (v_init n alts)).
+Proof. exact vc_reachable_inv. Qed.
+Print Assumptions C12_converting_histories.
+
+Theorem C12_converting_destroyed_exactly_once : forall ct at_ (n : nat) (alts : Z) (cops : list vcop),
+  let w := fold_left (vc_step ct at_) cops (v_init n alts) in
+  (forall x, In x (v_objs w) -> x = None) -> ctor (v_stt w) = dtor (v_stt w) /\ bad (v_stt w) = 0.
+Proof. intros ct at_ n alts cops. rewrite vc_fold. apply v_all_destroyed. Qed.
+Print Assumptions C12_converting_destroyed_exactly_once.
+
+Example C12_converting_nonvacuous :
+  let w := fold_left (vc_step harness_ctor_target harness_assign_target)
+             [VCConvConstruct 0 1 5; VCConvAssign 0 3 7; VCFromOther 1 3 9; VCAssignOther 1 3 8; VCAssignOther 1 (-1) 0;
+              VCOp (VMoveAssign 1 0); VCOp (VDestroy 0)]%Z (v_init 3 4) in
+  v_objs w = [None; Some {| v_index := 3; v_slot := Alive 7 |}; None] /\ bad (v_stt w) = 0.
+Proof. vm_compute. split; reflexivity. Qed.
+
 (* non-vacuity: a history with a throwing constructor, a cross-alternative assignment,
    a self move-assignment and an out-of-range Become *)
 Example C12_nonvacuous :
